@@ -6,6 +6,7 @@ two streams.
 import PubgrubModel
 import PubgrubModel.Diag
 import PubgrubModel.ContainersDriver
+import PubgrubModel.DagDriver
 
 open Pubgrub Pubgrub.Protocol
 
@@ -93,6 +94,11 @@ def evalLine (line : String) : String :=
       "|U=" ++ toString (mask (VersionSet.union x y)) ++
       "|D=" ++ bit (VersionSet.isDisjoint x y) ++ "|S=" ++ bit (VersionSet.subsetOf x y)
     | _, _ => bad
+  | ["scale", _, _] => "not-modelled"
+  | ["dag", shape, top] =>
+    match top.toNat? with
+    | some t => DagDriver.dag shape t
+    | none => bad
   | ["svx", script] => ContainersDriver.svx script
   | ["smx", script] => ContainersDriver.smx script
   | ["sv1", a, b, c] =>
